@@ -58,7 +58,11 @@ func vCount(s []int, x int) int {
 func VSeqStep(l List[int], pre []int, ext VExt) []int {
 	op := v.CfgOr("op", -1)
 	if op < 0 {
-		op = v.Split(v.IntIn("op", 0, VOpCount-1), 0, VOpCount-1)
+		op = v.IntIn("op", 0, VOpCount-1)
+		if v.CfgOr("nosort", 0) == 1 { // wide runs: every operation except Sort (whose paths grow like n!)
+			v.Assume(op != VOpSort)
+		}
+		op = v.Split(op, 0, VOpCount-1)
 	}
 	n := len(pre)
 	want := pre
